@@ -1,6 +1,5 @@
 (* Stream-level decode = denote: the definitions the theorems are stated with.
    - [stream_wf]: the record list is serialisable (every component in its wire range);
-   - [no_time_quirk]: the stream stays off the two recorded time-rule defects (C12 known findings);
    - [Inv]: the invariant relating the decoder state to the state of the reference semantics. *)
 From Coq Require Import NArith ZArith List Bool.
 From FitV Require Import Model.Values Model.Bytes Model.Base Model.Profile Model.Reflect Model.IO Model.Route
@@ -22,62 +21,8 @@ Definition rec_wf (r : record) : bool :=
   end.
 Definition stream_wf (rs : list record) : bool := forallb rec_wf rs.
 
-(* ------------------------------------------------------------ time: staying off the recorded defects *)
-
 (* the compressed-timestamp rule of the reference semantics *)
 Definition roll (r o : N) : N := (r + (o + 32 - r mod 32) mod 32) mod 2 ^ 32.
-
-(* fields of one data record of a known message: no explicit timestamp 0; every valid local_date_time
-   value meets a usable reference (>= systemTimeMarker). Threads the reference as denote_fields does. *)
-Fixpoint fields_time_ok (be : bool) (gmn : N) (fds : list sfdef) (pay : list N) (ref : option N) : bool :=
-  match fds with
-  | [] => true
-  | f :: r =>
-      let sz := N.to_nat (sf_size f) in
-      let bytes := firstn sz pay in
-      let rest := skipn sz pay in
-      match get_field gmn (sf_num f) with
-      | None => fields_time_ok be gmn r rest ref
-      | Some p =>
-          let u := wire_unsigned be bytes in
-          let k := fit_kind (pf_t p) in
-          let ok :=
-            if k =? kind_timeutc then negb ((sf_num f =? c_fieldNumTimeStamp) && (u =? 0))
-            else if k =? kind_timelocal then
-              (u =? 0xFFFFFFFF) || match ref with Some r0 => c_systemTimeMarker <=? r0 | None => false end
-            else true in
-          let ref' :=
-            if (sf_num f =? c_fieldNumTimeStamp) && (k =? kind_timeutc) then
-              if u =? 0xFFFFFFFF then ref else Some u
-            else ref in
-          ok && fields_time_ok be gmn r rest ref'
-      end
-  end.
-
-Definition record_time_ok (s : sstate) (r : record) : bool :=
-  let data (l : N) (off : option N) (pay : list N) : bool :=
-    match lookup_def (ss_env s) l with
-    | None => true
-    | Some d =>
-        (* a compressed step never lands on 0 (0 doubles as "no reference") *)
-        let step_ok := match off, ss_ref s with Some o, Some r0 => negb (roll r0 o =? 0) | _, _ => true end in
-        let ref1 := match off, ss_ref s with Some o, Some r0 => Some (roll r0 o) | _, r0 => r0 end in
-        step_ok && (if known_msg (sd_gmn d) then fields_time_ok (sd_be d) (sd_gmn d) (sd_fds d) pay ref1 else true)
-    end in
-  match r with
-  | RDef _ _ _ _ _ _ => true
-  | RData l pay _ => data l None pay
-  | RComp l off pay _ => data l (Some off) pay
-  end.
-
-Fixpoint no_time_quirk_from (s : sstate) (rs : list record) : bool :=
-  match rs with
-  | [] => true
-  | r :: rest =>
-      record_time_ok s r &&
-      match denote_record s r with Some s' => no_time_quirk_from s' rest | None => true end
-  end.
-Definition no_time_quirk (rs : list record) : bool := no_time_quirk_from ss_init rs.
 
 (* ------------------------------------------------------------ the invariant *)
 
@@ -99,18 +44,18 @@ Definition slot_rel (od : option defmsg) (sd : option sdef) : Prop :=
   | _, _ => False
   end.
 
-(* d.timestamp = 0 means "no reference"; with a reference, lastTimeOffset is its low five bits *)
-Definition time_rel (ts lo : N) (ref : option N) : Prop :=
+(* d.hasTimestamp says whether there is a reference; with one, d.timestamp is it and lastTimeOffset its low five bits *)
+Definition time_rel (hasts : bool) (ts lo : N) (ref : option N) : Prop :=
   match ref with
-  | None => ts = 0
-  | Some r => ts = r /\ r <> 0 /\ lo = r mod 32
+  | None => hasts = false
+  | Some r => hasts = true /\ ts = r /\ lo = r mod 32
   end.
 
 Record Inv (o : dopts) (pre : list msg) (fb : file) (gb : gstate) (ft : N) (s : dstate) (ss : sstate) : Prop := {
   inv_len : List.length (ds_defs s) = 16%nat;
   inv_defs : forall l, l < 16 -> slot_rel (nth (N.to_nat l) (ds_defs s) None) (lookup_def (ss_env ss) l);
   inv_env16 : forall l d, lookup_def (ss_env ss) l = Some d -> l < 16;
-  inv_time : time_rel (ds_ts s) (ds_lastoff s) (ss_ref ss);
+  inv_time : time_rel (ds_hasts s) (ds_ts s) (ds_lastoff s) (ss_ref ss);
   inv_unkm : o_unkm o = true -> ds_unkm s = ss_unkm ss;
   inv_unkf : o_unkf o = true -> ds_unkf s = ss_unkf ss;
   inv_ft : In ft valid_file_types;
